@@ -32,6 +32,10 @@ checks = {
          "20k/300k requests whose triple the service accepts (pass-through) or whose path matches nothing (unknown-endpoint handler), with arbitrary headers, queries, bodies and lengths; the downstream handler's view must equal a snapshot taken before ServeHTTP, and the client must receive exactly what the handler wrote.", "5/C13"),
  "C18": ("fault_enumeration", "invocation counters, context capture and after-return I/O flags over an enumeration of rejection classes and exit paths",
          "18 rejection classes x client forms x random configurations and 5 exit-path classes (30k/600k executions, race-detector build): at most one dispatch, none for rejected requests, handler context cancelled and no reads/writes after ServeHTTP returned.", "5/C18"),
+ "C15": ("exploration", "fresh-vs-used differential over hostile histories with poison-on-release pool hooks and reuse attribution",
+         "200/4000 histories of 1..80 hostile requests (mutations, corrupt gzip, limit breaches, backend panics, sizes around the 8 MiB pool cut-off) on one Transcoder under GOMAXPROCS=1, each followed by 10 probe RPCs whose canonical outcomes must equal those on never-used Transcoders; released buffers are poisoned by the pool hook and the hooks prove that probes really received buffers and (de)compressors last used by failed requests (coverage minimum).", "5/C15"),
+ "C16": ("exploration", "flush accounting at the recorder + request look-ahead monitor in memory; strict ping-pong over real h2c (bounded progress)",
+         "1200/20000 streaming scenarios (3 client forms x 3 targets x codec/compression pairs x rounds 1..100 x sizes 0..70 KiB x stream shapes): in memory, when the handler's Write of message k returns the client-side recorder must hold frame k followed by a Flush, and request bytes of message j may only be pulled once the handler has obtained messages before j; every 10th case runs a strict ping-pong over a real HTTP/2 (h2c) connection, where all rounds must complete (stalls confirmed by an isolated re-run).", "5/C16"),
  "C17": ("exploration", "reference servability predicate (known refusal reasons) + probes of accepted configurations",
          "6k/120k generated configurations: valid bases with (in 60%) one injected reason to be refused out of 25 classes - NewTranscoder must return an error and no transcoder for those, and for accepted configurations every binding must be reachable through the URL rendered from its template and land on the declared method, exact selectors must bind only the named method, per-service options must beat defaults on the wire.", "5/C17"),
  "C19": ("exploration", "GET safety oracle + GET-vs-POST decode equivalence + self-calibrated URL-length boundary",
